@@ -126,10 +126,49 @@ Theorem c05_refused_only_that_stream : forall c i s r, c_up c = true -> c_wclose
   match r with
   | RespOk => snd (step c (EResumeResp i r)) = [OResumed i]
   | RespRefused => snd (step c (EResumeResp i r)) = [OCloseReq (c_gen c) i; OStreamClosed i true]
+  | RespConflict => snd (step c (EResumeResp i r)) = [OResumeReq (c_gen c) i (s_down s)] /\
+                    find_s i (c_streams (fst (step c (EResumeResp i r)))) = Some s
   end /\
   forall j, j <> i -> find_s j (c_streams (fst (step c (EResumeResp i r)))) = find_s j (c_streams c).
 Proof. exact resume_answer. Qed.
 Print Assumptions c05_refused_only_that_stream.
+
+(* A stream is dropped only for a refusal the protocol makes FINAL: RESUME_REQUEST_CONFLICT (the broker
+   still holds the old incarnation) is retried - the request is written again, the stream stays resuming,
+   nothing is closed and no close request is sent; whatever an earlier attempt answered is forgotten when
+   a later attempt is accepted (c05_refused_only_that_stream gives the accepted / refused cases). *)
+Theorem c05_resume_conflict_retries : forall c i s, c_up c = true -> c_wclosed c = false ->
+  find_s i (c_streams c) = Some s -> s_phase s = SResuming -> s_held s = c_gen c ->
+  step c (EResumeResp i RespConflict) = (c, [OResumeReq (c_gen c) i (s_down s)]).
+Proof. exact resume_conflict_retries. Qed.
+Print Assumptions c05_resume_conflict_retries.
+
+(* The closed-with-error (and every other) notification is DELIVERED, not just queued: the stream's
+   dispatcher (event_dispatcher.go) looks at its context only while its queue is empty, so for every
+   history of addHandler / context cancellation / loop turns / slow batches: at the moment the loop exits
+   everything ever queued has been delivered, in order; and while it has not exited one more turn of the
+   loop delivers whatever is queued. *)
+Theorem c05_closed_event_delivered : forall pre e,
+  let s := drun false dinit pre in
+  d_exited s = false -> d_exited (dstep false s e) = true ->
+  e = DTake /\ d_delivered (dstep false s e) = dadds pre /\ d_q (dstep false s e) = [].
+Proof. exact dispatcher_drains_before_exit. Qed.
+Print Assumptions c05_closed_event_delivered.
+
+Theorem c05_dispatcher_delivers : forall evs,
+  let s := drun false dinit evs in d_exited s = false ->
+  let s' := drun false s [DDone; DTake; DDone] in
+  d_delivered s' = dadds evs /\ d_q s' = [] /\ d_batch s' = [].
+Proof. exact dispatcher_delivers. Qed.
+Print Assumptions c05_dispatcher_delivers.
+
+(* NOT the code: a loop that also leaves when its context is done right after a batch loses the
+   notification queued while a slow handler ran *)
+Theorem c05_hasty_dispatcher_refuted :
+  let s := drun true dinit [DAdd 1; DTake; DAdd 2; DCancel; DDone; DTake; DDone] in
+  d_exited s = true /\ d_delivered s = [1] /\ d_q s = [2].
+Proof. exact hasty_dispatcher_drops. Qed.
+Print Assumptions c05_hasty_dispatcher_refuted.
 
 (* Requests go through send(): as long as the user has not called Close, no open / metadata / call
    ever returns the connection-closed error, whatever fails and in whatever order ... *)
